@@ -21,3 +21,50 @@ witness RemoveKey [C03]  : W(alphabet())
 safe Key [C03]
 safe Version [C03]
 @*/
+
+/*@
+module store
+props C20
+use common core
+dialect neovm
+
+// C20: NeoFSID keys are stored under o<owner 25><key 33>; fixed widths make key(owner) exact.
+pure okey(o Bytes, k Bytes) Bytes = "o" ++ o ++ k
+
+func AddKey(owner, keys)
+  ensures [C20] W(alphabet()) && len(owner) == 25
+  ensures [C20] forall i Int {keys[i]} :: 0 <= i && i < len(keys) ==> len(keys[i]) == 33 && store.has(okey(owner, keys[i]))
+  // nothing but keys of this owner is written, nothing is removed
+  ensures [C20] forall k Bytes {store.opt(k)} :: !prefix("o" ++ owner, k) ==> store.opt(k) == old(store).opt(k)
+  ensures [C20] forall k Bytes {store.opt(k)} :: old(store).has(k) ==> store.has(k)
+  loop 0
+    invariant store == old(store)
+    invariant forall j Int {keys[j]} :: 0 <= j && j < i ==> len(keys[j]) == 33
+  loop 1
+    invariant forall j Int {keys[j]} :: 0 <= j && j < i ==> store.has(okey(owner, keys[j]))
+    invariant forall k Bytes {store.opt(k)} :: !prefix("o" ++ owner, k) ==> store.opt(k) == old(store).opt(k)
+    invariant forall k Bytes {store.opt(k)} :: old(store).has(k) ==> store.has(k)
+
+func RemoveKey(owner, keys)
+  ensures [C20] W(alphabet()) && len(owner) == 25
+  ensures [C20] forall i Int {keys[i]} :: 0 <= i && i < len(keys) ==> !store.has(okey(owner, keys[i]))
+  ensures [C20] forall k Bytes {store.opt(k)} :: !prefix("o" ++ owner, k) ==> store.opt(k) == old(store).opt(k)
+  // nothing is added
+  ensures [C20] forall k Bytes {store.opt(k)} :: store.has(k) ==> store.opt(k) == old(store).opt(k)
+  loop 0
+    invariant store == old(store)
+    invariant forall j Int {keys[j]} :: 0 <= j && j < i ==> len(keys[j]) == 33
+  loop 1
+    invariant forall j Int {keys[j]} :: 0 <= j && j < i ==> !store.has(okey(owner, keys[j]))
+    invariant forall k Bytes {store.opt(k)} :: !prefix("o" ++ owner, k) ==> store.opt(k) == old(store).opt(k)
+    invariant forall k Bytes {store.opt(k)} :: store.has(k) ==> store.opt(k) == old(store).opt(k)
+
+func getUserInfo(ctx, key) (r)
+  pure
+  loop 0
+    invariant len(pubs) == $it.pos
+
+// the search prefix o<owner> selects exactly the keys of that owner (25-byte owners, 33-byte keys)
+lemma keyPrefixExact [C20]: forall o Bytes, o2 Bytes, k Bytes :: len(o) == 25 && len(o2) == 25 && len(k) == 33
+        && prefix("o" ++ o, "o" ++ o2 ++ k) ==> o == o2
+@*/
